@@ -48,7 +48,8 @@ GROUPS: dict[str, list[tuple[str, str]]] = {
     "get_variables": [("core/expressions.py", "get_all_variables"), ("core/expressions.py", "_get_variables_iterative"),
                       ("core/expressions.py", "_estimate_tree_depth")]
                      + [("core/expressions.py", f"{c}.get_variables") for c in ("Constant", "Variable", "BinaryOp", "UnaryOp")],
-    "iterative": [("core/autodiff.py", "_gradient_iterative"), ("core/autodiff.py", "_estimate_tree_depth")],
+    # _gradient_iterative: rule templates (gen_tables) + control skeleton (py2lean_graditer) are translated
+    "iterative": [("core/autodiff.py", "_estimate_tree_depth")],
     "solve": [("problem.py", "Problem.solve"), ("core/autodiff.py", "increased_recursion_limit")],
 }
 
